@@ -26,7 +26,7 @@ BUDGET = {
 }
 REQUIRED_PROBES = ["unary", "sstream", "cstream", "bidi", "void_output", "foreign_request", "form_none", "form_dict",
                    "form_msg", "retried_identical_payload", "concurrent_callers", "crossing_replies", "stream_cut",
-                   "second_client_same_process", "keyword_rpc", "async_stream", "presence_only_request", "cancelled_mid_call"]
+                   "second_client_same_process", "keyword_rpc", "async_stream", "presence_only_request", "cancelled_mid_call", "threaded_callers", "threads_crossing_replies"]
 ASSUMPTIONS = ["client-streaming and bidi calls are not driven through retried attempts (a consumed request iterator "
                "cannot be replayed; outside the property)"]
 
@@ -74,8 +74,10 @@ def gen_scenarios(spec, rng, n):
         client = rng.choice(["sync", "async", "async"])
         from ..rng import deep
         nact = 1 if client == "sync" else rng.choice([1, 2, 3, 4, 6] if deep() else [1, 2, 3, 4])
-        if client == "sync" and rng.random() < 0.3:
-            nact = 2        # two sequential actors = two clients in one process when clients == per_actor
+        threads = False
+        if client == "sync" and rng.random() < 0.45:
+            nact = rng.choice([2, 2, 3, 4])   # sequential actors (two clients in one process), or ...
+            threads = rng.random() < 0.65     # ... REAL caller threads sharing the client, scheduled by simthreads
         actors = [{"start": 0.0, "ops": []} for _ in range(nact)]
         nops = rng.randint(1, 10 if deep() else 5) if nact == 1 else nact + rng.randint(0, 6 if deep() else 3)
         prev = {}
@@ -89,6 +91,9 @@ def gen_scenarios(spec, rng, n):
         sc = {"client": client, "actors": [a for a in actors if a["ops"]], "jitter_default": 0.0}
         if nact > 1 and rng.random() < 0.5:
             sc["clients"] = "per_actor"
+        if threads and len(sc["actors"]) > 1:
+            sc["threads"] = True
+            sc["sched_seed"] = rng.randrange(2 ** 32)
         if client == "async" and len(sc["actors"]) > 1 and rng.random() < 0.2:
             # fault: one caller's task is cancelled at an arbitrary instant; the OTHER callers' calls must be unaffected
             sc["cancels"] = [{"actor": rng.randrange(len(sc["actors"])), "at": rng.choice([0.0, 0.001, 0.005, 0.02, 0.06, 0.15])}]
@@ -165,6 +170,12 @@ def judge(spec, scenario, history):
     ops = oracle.all_ops(scenario)
     by = oracle.events_by_op(history, ops)
     probes = {}
+    if scenario.get("threads"):
+        probes["threaded_callers"] = 1
+        starts = [e["op"] for e in history if e["k"] == "invoke"]
+        ends = [e["op"] for e in history if e["k"] in ("return", "raise")]
+        if starts != ends:
+            probes["threads_crossing_replies"] = 1
     if len(scenario["actors"]) > 1 and scenario["client"] == "async":
         probes["concurrent_callers"] = 1
         # replies delivered in a different order than the calls were issued
